@@ -57,9 +57,11 @@ def run_panel(case, want_targets=None):
     seed = case.get("sim_seed", r.randint(0, 10_000))
     info["sim_seed"] = seed
     Vm = model_solve(mj, P)
-    if any(u for u in Vm["undef"]) or any(y == "-inf" for b in Vm["V"] for y in b["data"]):
+    has_ninf = any(y == "-inf" for b in Vm["V"] for y in b["data"])
+    if any(u for u in Vm["undef"]) or (has_ninf and not case.get("allow_ninf")):
         info["skip"] = "unsupported (-inf value or undefined transition)"
         return info
+    info["has_ninf"] = has_ninf
     try:
         fns = ImplFns(mj, jit=True)
         if case.get("random_V"):
@@ -76,7 +78,9 @@ def run_panel(case, want_targets=None):
     info["V"] = V
     info["df"] = df
     info["rows"] = frame_rows(df, mj, n)
-    info["res"] = check_simulation(mj, P, V, info["rows"], init, tol=(1e-9 if has_log(mj) else None))
+    # value arrays with -inf entries are outside the class the model-side oracle speaks about: properties that compare
+    # the implementation with itself (C06 a/b) still run on them
+    info["res"] = None if has_ninf else check_simulation(mj, P, V, info["rows"], init, tol=(1e-9 if has_log(mj) else None))
     return info
 
 
